@@ -46,14 +46,17 @@ def doStep (d : DSt) (stepToks : List String) : DSt :=
   if d.dead then { d with obs := d.obs ++ ["r=skipped c=- o=- n=0"] } else
   match stepToks with
   | "m" :: hex :: fn :: rest =>
-    let bytes := (if hex == "-" then some [] else bytesOfHex? hex).getD []
+    let segs := (hex.splitOn "+").map fun x => (if x == "-" then some [] else bytesOfHex? x).getD []
     let n := (fn.drop 1).toString.toNat?.getD 0
     let fds := (List.range n).map (· + d.nextId)
     let h := parseHOut ((kvOf rest "h").getD "ok")
     let closeAfter := rest.contains "close"
-    let cells := d.cells ++ segCells bytes fds
+    let seq := rest.contains "seq"
+    -- descriptors ride on the first segment
+    let newCells := (segs.zipIdx.map fun (b, i) => segCells b (if i == 0 then fds else [])).flatten
+    let cells := d.cells ++ newCells
     let isClosed := d.closed || closeAfter
-    let r := step (kernelChooser false) isClosed d.bst () cells h
+    let r := step (kernelChooser seq) isClosed d.bst () cells h
     { bst := r.o.st, cells := r.rest, closed := isClosed, nextId := d.nextId + n,
       dead := r.o.res == .blocked, obs := d.obs ++ [fmtOut r.o] }
   | _ => { d with obs := d.obs ++ ["bad-step"] }
